@@ -25,6 +25,11 @@
 (*                                 shutdown_timeout + SLACK, or never      *)
 (*   not-cancelled                 an application running at T is still    *)
 (*                                 running after T + graceful + SLACK      *)
+(*   lifespan-shutdown-skipped     serve() returned without sending        *)
+(*                                 lifespan.shutdown to a started-up app   *)
+(*   lifespan-shutdown-cut-short   the application was cancelled while it  *)
+(*                                 worked on lifespan.shutdown, before     *)
+(*                                 shutdown_timeout had passed             *)
 (* Not demanded (statement silent or ambiguous): the fate of a connection  *)
 (* with a partially sent request head or of a fresh connection that never  *)
 (* sent anything; a request whose head was begun before T and completed    *)
@@ -53,7 +58,7 @@ NoRecv == [complete |-> FALSE, len |-> -1]
 SInit == [w |-> "?", graceful |-> 0, shutdownTo |-> 0, prelisten |-> TRUE,
           trigAt |-> -1, src |-> "", conns |-> Empty, apps |-> Empty, reqs |-> Empty,
           recv |-> Empty, serveAt |-> -1, winddown |-> FALSE,
-          lifeUp |-> FALSE, shutRecv |-> 0, lifeEnd |-> ""]
+          lifeUp |-> FALSE, shutRecv |-> 0, lifeEnd |-> "", shutAt |-> -1, shutAnswered |-> FALSE]
 
 Conn(s, c) == Get(s.conns, c, NoConn)
 App(s, a)  == Get(s.apps, a, NoApp)
@@ -117,6 +122,11 @@ Clauses(s, ev) ==
             \* and was still waiting for the shutdown message when serve() returned without delivering it
             \o (IF Trig(s) /\ ev.outcome = "return" /\ s.lifeUp /\ s.shutRecv = 0 /\ s.lifeEnd \in {"", "cancelled"}
                 THEN <<F("lifespan-shutdown-skipped", Situation(s))>> ELSE <<>>)
+       \* "... runs lifespan shutdown": an application still working on lifespan.shutdown is given shutdown_timeout,
+       \* not less (it is cancelled - or serve() gives up on it - only when that time is up)
+       [] ev.e = "life_done" ->
+            IF Trig(s) /\ ev.how = "cancelled" /\ s.shutRecv >= 1 /\ ~s.shutAnswered /\ ev.now < s.shutAt + s.shutdownTo
+            THEN <<F("lifespan-shutdown-cut-short", Situation(s))>> ELSE <<>>
        [] ev.e = "final" ->
             (IF Trig(s) /\ s.serveAt < 0 THEN <<F("unbounded-shutdown", Situation(s))>> ELSE <<>>)
             \o StillRunning(s, ev.now)
@@ -160,8 +170,11 @@ Step(s, ev) ==
                                         [s.apps[a] EXCEPT !.atTrig = ~s.apps[a].done]]]
       [] ev.e = "serve_done" -> [s EXCEPT !.serveAt = ev.now]
       [] ev.e = "life_send" ->
-            IF ev.type = "lifespan.startup.complete" /\ ev.outcome = "ok" THEN [s EXCEPT !.lifeUp = TRUE] ELSE s
-      [] ev.e = "life_recv" -> IF ev.type = "lifespan.shutdown" THEN [s EXCEPT !.shutRecv = @ + 1] ELSE s
+            IF ev.type = "lifespan.startup.complete" /\ ev.outcome = "ok" THEN [s EXCEPT !.lifeUp = TRUE]
+            ELSE IF ev.type \in {"lifespan.shutdown.complete", "lifespan.shutdown.failed"} THEN [s EXCEPT !.shutAnswered = TRUE]
+            ELSE s
+      [] ev.e = "life_recv" -> IF ev.type = "lifespan.shutdown"
+                               THEN [s EXCEPT !.shutRecv = @ + 1, !.shutAt = IF s.shutAt < 0 THEN ev.now ELSE @] ELSE s
       [] ev.e = "life_done" -> [s EXCEPT !.lifeEnd = ev.how]
       [] ev.e = "winddown" -> [s EXCEPT !.winddown = TRUE]
       [] OTHER -> s
